@@ -536,6 +536,31 @@ fn builtin_structs(_env: &Env, st: &mut Stats) -> Vec<Failure> {
             }
         }
         let _ = other;
+        // ... and a name removed from a runtime that had all built-ins is unknown again, while
+        // every other built-in keeps answering
+        for sig in SIGS {
+            let mut rt = Runtime::new();
+            rt.register_builtin_functions();
+            let removed = rt.deregister_function(sig.name).is_some();
+            st.eval();
+            let call = format!("{}(@)", sig.name);
+            let got = catch(std::panic::AssertUnwindSafe(|| rt.compile(&call).map(|c| c.search(Variable::from_json("{\"xs\":[1,2],\"z\":null}").unwrap()))));
+            let unknown = matches!(&got, Ok(Ok(Err(e))) if crate::imp::classify(e).class == "UnknownFunction");
+            let other_name = if sig.name == "type" { "length" } else { "type" };
+            let still = catch(std::panic::AssertUnwindSafe(|| rt.compile(&format!("{}(xs)", other_name)).map(|c| c.search(Variable::from_json("{\"xs\":[1,2]}").unwrap()).map(|v| v.to_string()))));
+            let still_ok = matches!(&still, Ok(Ok(Ok(v))) if v == "\"array\"" || v == "2");
+            if !unknown || !still_ok {
+                fails.push(Failure::new(
+                    "builtin-structs",
+                    "deregistered-builtin-still-resolves",
+                    format!("register_builtin_functions(); deregister_function({:?}) returned a function: {}; {} then gives {:?} (expected unknown-function); {}(xs) gives {:?}", sig.name, removed, call, got.map(|r| r.map(|x| x.map(|v| v.to_string()).map_err(|e| e.to_string())).map_err(|e| e.to_string())), other_name, still.map(|r| r.map(|x| x.map_err(|e| e.to_string())).map_err(|e| e.to_string()))),
+                    json!({"expression": call, "runtime": format!("register_builtin_functions(); deregister_function({:?})", sig.name)}),
+                ));
+                if fails.len() > 5 {
+                    return fails;
+                }
+            }
+        }
     }
     for mode in 0..2 {
         let mut rt = Runtime::new();
@@ -700,6 +725,34 @@ fn argument_types(src: &mut Src, st: &mut Stats, _env: &Env) -> CaseResult {
         if got != want {
             return Err(Failure::new("argument-types", "type-predicate-wrong", format!("{:?} is_valid({}) = {} expected {}", t, vt, got, want), json!({"type": format!("{:?}", t), "value": vt})));
         }
+    }
+    // long arrays: uniform but for a few members of another kind at generated places
+    for _ in 0..3 {
+        let n = 1 + src.size(90);
+        let kinds = ["1", "\"s\"", "[1]", "[\"a\"]", "{}", "null", "true", "[]", "2.5"];
+        let base = *src.pick(&kinds);
+        let mut items: Vec<&str> = vec![base; n];
+        let odd_count = src.below(3);
+        for _ in 0..odd_count {
+            let at = match src.below(4) {
+                0 => 0,
+                1 => n - 1,
+                2 => n.saturating_sub(1 + src.below(8)),
+                _ => src.below(n),
+            };
+            items[at] = *src.pick(&kinds);
+        }
+        let vt = format!("[{}]", items.join(", "));
+        let vt2 = format!("[{}]", vt);
+        for text in [vt, vt2] {
+            let v = jmespath::Variable::from_json(&text).unwrap();
+            let rv = jmespath::Rcvar::new(v.clone());
+            let (got, want) = (at.is_valid(&rv), accepts(&t, &v));
+            if got != want {
+                return Err(Failure::new("argument-types", "type-predicate-wrong", format!("{:?} is_valid({}) = {} expected {}", t, clip(&text, 400), got, want), json!({"type": format!("{:?}", t), "value": text})));
+            }
+        }
+        st.class("argument-types:long-array");
     }
     // an expression reference as a value
     let ex = jmespath::Variable::Expref(jmespath::parse("a").unwrap());
